@@ -379,8 +379,9 @@ def gen_block(rng, ls, Ks, Ms, geom, kind="block"):
     return {"kind": kind, "geom": geom, "s": [s.to_json() for s in ss]}
 
 
-def gen_block_capped(rng, ls, cap, kmax=3, mprob=0.3, geom=None, want_m2=False):
-    """K (<= kmax) and M (<= 2) per shell as large as the cost cap allows; geometry as asked or random"""
+def gen_block_capped(rng, ls, cap, kmax=3, mprob=0.3, geom=None, want_m2=False, light=False):
+    """K (<= kmax) and M (<= 2) per shell as large as the cost cap allows (light: no single model call in the
+    `heavy` memory class either); geometry as asked or random"""
     g = geom or rng.choice(GEOMS)
     Ks = [rng.randint(1, kmax) for _ in range(4)]
     Ms = [2 if (rng.random() < mprob) else 1 for _ in range(4)]
@@ -388,7 +389,7 @@ def gen_block_capped(rng, ls, cap, kmax=3, mprob=0.3, geom=None, want_m2=False):
         Ms[rng.randrange(4)] = 2
     while True:
         c = gen_block(rng, ls, Ks, Ms, g)
-        if est_cost(c["s"]) <= cap:
+        if est_cost(c["s"]) <= cap and not (light and heavy(c["s"])):
             return c
         # too expensive: drop a column, else a primitive, else move everything onto fewer centres
         big_m = [i for i in range(4) if Ms[i] > 1]
@@ -470,7 +471,7 @@ def thorough_blocks(rng):
             g = rng.choice(("pairwise", "coincident", "pairwise")) if ff else rng.choice(GEOMS)
             cases.append(gen_block(rng, t, [1, 1, 1, 1], [1, 1, 1, 1], g))
         else:
-            cases.append(gen_block_capped(rng, t, 60.0, kmax=3))
+            cases.append(gen_block_capped(rng, t, 40.0, kmax=3, light=True))
     # (f,f) pairs on two centres and the full (ff|ff) in general position
     for t, g in (((3, 3, 3, 3), "general"), ((3, 3, 0, 1), "general"), ((1, 0, 3, 3), "general"), ((3, 3, 2, 2), "three"),
                  ((2, 1, 3, 3), "collinear"), ((3, 3, 3, 2), "pairwise")):
@@ -478,7 +479,7 @@ def thorough_blocks(rng):
     # second pass over the cheaper tuples: other K / M / geometry
     for t in ALL_TUPLES:
         if sum(t) <= 7:
-            cases.append(gen_block_capped(rng, t, 40.0, kmax=3, mprob=0.5, want_m2=(sum(t) <= 5)))
+            cases.append(gen_block_capped(rng, t, 25.0, kmax=3, mprob=0.5, want_m2=(sum(t) <= 5), light=True))
     return cases
 
 
@@ -650,15 +651,23 @@ def run(rep, tier, seed, model, replay):
         cases = [replay["case"]]
     else:
         cases = gen_cases(tier, seed)
-    big = [c for c in cases if c["kind"] in ("block", "ill") and heavy(c["s"])]
-    rest = [c for c in cases if not (c["kind"] in ("block", "ill") and heavy(c["s"]))]
-    for group, nproc in ((big, 4), (rest, 16)):
+    # memory classes by the largest single model call (about 70 MB per second of evaluation, the estimate can be
+    # low by a factor 3): > 18 s run 4 at a time, 10..18 s 8 at a time, the rest 16 at a time
+    def mclass(c):
+        if c["kind"] not in ("block", "ill"):
+            return 2
+        m = max(_calls(c["s"]))
+        return 0 if m > 18.0 else (1 if m > 10.0 else 2)
+
+    groups = [[c for c in cases if mclass(c) == k] for k in range(3)]
+    for group, nproc in zip(groups, (4, 8, 16)):
         group.sort(key=lambda c: -case_cost(c))         # longest first
         if group:
             run_cases(rep, group, eval_case, shrinkfn=shrink_case, known=known, nproc=min(nproc, len(group)))
     if replay is None:
         rep.dist["stat:ill_conditioned_list"] = sum(1 for c in cases if c["kind"] == "ill")
-        rep.dist["stat:heavy_cases_run_4_at_a_time"] = len(big)
+        rep.dist["stat:cases_run_4_at_a_time"] = len(groups[0])
+        rep.dist["stat:cases_run_8_at_a_time"] = len(groups[1])
 
 
 def xcheck_cmds(seed):
